@@ -90,7 +90,21 @@ def workflows():
          'stage1.Agg': m(1, ['stage0.S0', 'stage0.S1'], aggregate=True)})
     add('agg-plain', [comp('P'), comp('Agg', ['P:ref'], wa={'aggregate': True}), comp('T', ['Agg:ref'])],
         {'stage0.P': m(), 'stage0.Agg': m(producers=['stage0.P'], aggregate=True), 'stage0.T': m(producers=['stage0.Agg'])})
+    # DoWhile: S -> looped component L (three iterations 0..2: the condition file says True, True, False) -> C consumes the loop
+    dw = {'type': 'DoWhile', 'inputBindings': {'src': {'type': 'ref'}}, 'loopBindings': {}, 'condition': 'L/cond.txt:output',
+          'components': [{'name': 'L', 'command': {'executable': 'ls', 'arguments': 'src:ref'}, 'references': ['src:ref'],
+                          'resourceManager': {'config': {'backend': 'simulator'}}}]}
+    W['dowhile'] = ({'components': [comp('S'), {'name': 'loop', 'stage': 0, '$import': 'dowhile.yaml', 'bindings': {'src': 'S:ref'}},
+                                     comp('C', ['stage0.L:ref'], stage=1)]},
+                    {'stage0.S': m(), 'stage0.0#L': m(producers=['stage0.S']), 'stage0.1#L': m(producers=['stage0.S', 'stage0.0#L']),
+                     'stage0.2#L': m(producers=['stage0.S', 'stage0.1#L']),
+                     'stage1.C': m(1, ['stage0.0#L', 'stage0.1#L', 'stage0.2#L'])})
+    DOWHILE_EXTRAS['dowhile'] = {'extra_files': {'conf/dowhile.yaml': json.dumps(dw)}, 'exit_files': {'L': {'cond.txt': ['True', 'True', 'False']}},
+                                 'loop': ['stage0.0#L', 'stage0.1#L', 'stage0.2#L']}
     return W
+
+
+DOWHILE_EXTRAS = {}
 
 
 # exit-reason alphabet of one task execution: (label, reason, duration)
@@ -110,7 +124,7 @@ def base_name(ref, meta):
 
 
 # ---------------------------------------------------------------------------------------------- reference model
-def reference_outcome(meta, script, attrs, stages_run):
+def reference_outcome(meta, script, attrs, stages_run, loop_nodes=None):
     """Independent model of the documented rules (written from the property statement).
 
     script: node -> list of reason labels, consumed one per task execution (last repeats).
@@ -121,10 +135,18 @@ def reference_outcome(meta, script, attrs, stages_run):
     state = {}
     unrecoverable = False
     acceptable = {}
+    loop = (loop_nodes or [])
     for n in order:
         if meta[n]['stage'] not in stages_run:
             continue
-        prods = meta[n]['producers']
+        if n in loop:
+            i = loop.index(n)
+            if i > 0 and state.get(loop[i - 1]) != 'finished':
+                # the previous iteration did not finish: the loop stops, this iteration is never instantiated
+                state[n] = 'never-instantiated'
+                acceptable[n] = {'never-instantiated'}
+                continue
+        prods = [p for p in meta[n]['producers'] if state.get(p) != 'never-instantiated']
         a = attrs.get(n, {})
         shutdown_on = a.get('shutdownOn', [])
         restart_on = a.get('restartHookOn', ['ResourceExhausted'])
@@ -224,7 +246,11 @@ def make_scenarios(tier):
             for la in pair_labels:
                 for lb in pair_labels:
                     assigns.append({a: la, b: lb})
+        loop_nodes = DOWHILE_EXTRAS.get(wname, {}).get('loop', [])
         for asg in assigns:
+            if any(n in loop_nodes and l in SHUTDOWN_LABELS for n, l in asg.items()):
+                # what a shut-down loop iteration means for the loop (and its consumers) is not said by the statement
+                continue
             for durmode in (('fast',) if tier != 'thorough' else ('fast', 'slow-first')):
                 dur = {}
                 if durmode == 'slow-first' and nodes:
@@ -282,17 +308,23 @@ def build(scn):
         d = scn['dur'].get(n, 0.0)
         script[n] = [['LaunchOSError' if r == 'SubmissionFailed' else r.rstrip('!'), d] for r in seq]
     stages = sorted({meta[n]['stage'] for n in meta})
-    return Scenario(doc, script=script, name=scn['wf']), meta, mscript, attrs, stages
+    ex = DOWHILE_EXTRAS.get(scn['wf'], {})
+    return Scenario(doc, script=script, name=scn['wf'], extra_files=ex.get('extra_files'), exit_files=ex.get('exit_files')), \
+        meta, mscript, attrs, stages
 
 
 # ---------------------------------------------------------------------------------------------- judges
+EXTRA_PREDECESSORS = {}
+
+
 def snapshot_for_launch(job, task=None):
     """Runs inside the execution at every task creation / ComponentState.run(): states of the graph predecessors."""
     from verif.vsched.harness import H
     ctrl = H.controller
     ref = job.reference if hasattr(job, 'reference') else job
     snap = []
-    for p in sorted(ctrl.graph.predecessors(ref)):
+    preds = set(ctrl.graph.predecessors(ref)) | set(EXTRA_PREDECESSORS.get(ref, []))
+    for p in sorted(preds):
         try:
             pc = ctrl.get_compstate(p)
             snap.append([p, pc.state, any(e['kind'] == 'comp-run' and e['ref'] == p for e in H.events)])
@@ -301,7 +333,7 @@ def snapshot_for_launch(job, task=None):
     return snap
 
 
-def judge_c01(x, meta):
+def judge_c01(x, meta, loop_nodes=None):
     """Invariant monitor over the event log. Returns list of (why, sig)."""
     bad = []
     for e in x.events:
@@ -331,7 +363,7 @@ def judge_c01(x, meta):
     return bad
 
 
-def judge_c02(x, meta, mscript, attrs, stages):
+def judge_c02(x, meta, mscript, attrs, stages, loop_nodes=None):
     bad = []
     ret = x.result.get('ret')
     if ret != 'done':
@@ -340,13 +372,17 @@ def judge_c02(x, meta, mscript, attrs, stages):
         return bad
     ran = x.result.get('stages', [])
     stages_run = [s for s, _ in ran]
-    acceptable, unrecoverable, failed_nodes = reference_outcome(meta, mscript, attrs, set(stages_run))
+    acceptable, unrecoverable, failed_nodes = reference_outcome(meta, mscript, attrs, set(stages_run), loop_nodes)
     # exactly one final state for every component of the stages that ran
     for n in meta:
         if meta[n]['stage'] not in stages_run:
             continue
         f = x.final.get(n, {})
         st = f.get('state')
+        if acceptable.get(n) == {'never-instantiated'}:
+            if n in x.final:
+                bad.append(('loop iteration %s was instantiated although the previous iteration did not finish' % n, 'C02:loop-continued'))
+            continue
         if st not in FINAL:
             bad.append(('after run() returned, %s is in non-final state %r' % (n, st), 'C02:non-final:%s' % st))
             continue
@@ -354,6 +390,8 @@ def judge_c02(x, meta, mscript, attrs, stages):
         return bad
     if not unrecoverable:
         for n, acc in acceptable.items():
+            if acc == {'never-instantiated'}:
+                continue
             st = x.final[n]['state']
             if st not in acc:
                 bad.append(('no unrecoverable exit, rules give %s for %s but it ended %s' % (sorted(acc), n, st),
@@ -387,7 +425,7 @@ def judge_c02(x, meta, mscript, attrs, stages):
                 if meta[n]['stage'] != fstage and meta[n]['stage'] in stages_run and meta[n]['stage'] > fstage:
                     continue
                 st = x.final.get(n, {}).get('state')
-                if n in failed_nodes:
+                if n in failed_nodes or acc == {'never-instantiated'}:
                     continue
                 if st not in acc | {'component_shutdown'}:
                     bad.append(('unrecoverable exit elsewhere; %s must end %s or shut down but ended %s' % (n, sorted(acc), st),
@@ -404,6 +442,13 @@ def run_one(col, which, scn, prefix, remaining, boundary_only=False):
     hs, meta, mscript, attrs, stages = build(scn)
     h.install()
     h.H.on_launch = snapshot_for_launch
+    EXTRA_PREDECESSORS.clear()
+    loop_nodes = DOWHILE_EXTRAS.get(scn['wf'], {}).get('loop')
+    if loop_nodes:
+        # a consumer of a looped component must wait for the whole loop: every iteration the script will instantiate
+        for n, mm in meta.items():
+            if n not in loop_nodes and any(p in loop_nodes for p in mm['producers']):
+                EXTRA_PREDECESSORS[n] = [p for p in mm['producers'] if p in loop_nodes]
     # ComponentState.run snapshots
     x = h.execute(hs, prefix)
     col.evaluated()
@@ -413,7 +458,7 @@ def run_one(col, which, scn, prefix, remaining, boundary_only=False):
         col.state(fp)
     if x.errors:
         col.count('executions_with_activity_exceptions')
-    bad = judge_c01(x, meta) if which == 'C01' else judge_c02(x, meta, mscript, attrs, stages)
+    bad = judge_c01(x, meta, loop_nodes) if which == 'C01' else judge_c02(x, meta, mscript, attrs, stages, loop_nodes)
     outcome = (scn['wf'], x.result.get('ret'), tuple(sorted((n, f.get('state')) for n, f in x.final.items())),
                tuple(map(tuple, x.result.get('stages', []))))
     col.outcome('%s:%s' % (scn['wf'], case_id(outcome)))
